@@ -20,10 +20,10 @@ out = ["# Independently seeded defects\n",
        "the current quick tier.\n",
        "| defect | summary | needs | first run | now | strengthening |", "|---|---|---|---|---|---|"]
 for r in rows:
-    first = "missed" if "MISSED" in r[5] or r[5].startswith("missed") else ("caught" if "caught" in r[5] else r[5])
+    first = "missed" if "MISSED" in r[5] or r[5].startswith(("missed", "inconclusive")) else ("caught" if "caught" in r[5] else r[5])
     now = "caught" if "caught" in r[4] else r[4]
     out.append(f"| {r[0]} | {r[2]} | {r[3]} | {first} | {now} | {r[6]} |")
-n_miss = sum(1 for r in rows if "MISSED" in r[5] or r[5].startswith("missed"))
+n_miss = sum(1 for r in rows if "MISSED" in r[5] or r[5].startswith(("missed", "inconclusive")))
 out.append(f"\n{len(rows)} defects; {n_miss} missed at first and caught after strengthening; "
            f"{sum(1 for r in rows if 'caught' not in r[4])} currently not caught.\n")
 open(os.path.join(ROOT, "seeded", "INDEX.md"), "w").write("\n".join(out))
